@@ -244,6 +244,33 @@ func (cw *codecWorld) recut(cuts []int) {
 	cw.log(strings.TrimRight("recut "+strings.Join(cs, " "), " "), fmt.Sprintf("ok n=%d", len(frames)))
 }
 
+// feedFrames puts explicit frames (payload, end-of-message flag) in flight to B, built by the reference
+// codec: the decoder's input is then exactly these frames, possibly several messages in a row.
+func (cw *codecWorld) feedFrames(frames [][]byte, eom []bool) {
+	var out []byte
+	var specs []string
+	for i, p := range frames {
+		flag := byte(0)
+		if eom[i] {
+			flag = 1
+		}
+		if cw.enc {
+			out = append(out, cw.refDir.Seal(flag, p).Bytes()...)
+		} else {
+			out = append(out, refcodec.Frame{Flag: flag, Len: uint32(len(p)), Body: p}.Bytes()...)
+		}
+		specs = append(specs, orc.Payload(p)+"/"+b01(eom[i]))
+	}
+	cw.w.pending["B"] = out
+	cw.log("frames "+strings.Join(specs, " "), "ok")
+}
+
+// newmsg: the application starts reading the next message (NewMessageFromStream on the same stream)
+func (cw *codecWorld) newmsg() {
+	cw.deM = message.NewMessageFromStream(cw.w.b.s)
+	cw.log("newmsg", "ok")
+}
+
 func (cw *codecWorld) get(kind string, n int) (tval, error) {
 	cw.w.deliver("B")
 	var v tval
@@ -589,7 +616,7 @@ func sameVal(put, got tval) string {
 
 func runCodec(c *Ctx) error {
 	prop := "C14"
-	c.Res.Rule = "sequences of typed values (ints at type boundaries and random; int32/uint32 wrappers; chars; UTF-8 NUL-free strings to multi-frame length via PutString and PutStringBytes; finite doubles from random bit patterns, subnormals, exponent extremes; raw bytes) encoded by the real message.Message on real streams in both modes; emitted bytes compared with an independent spec encoder; decoded as sent and again after re-cutting the payload bytes into frames at every position (short sequences) or random positions; plus PutBytes/PutString/PutStringBytes/CodeString of 1 MiB ± 40 and 2–3 MiB in both modes, strings read back through GetString and CodeString as sent and after re-cutting the frames (inside the length prefix, in the text, before the terminator), judged by a property oracle on the decoded string and on the value that follows it; distinct by op-sequence hash; non-trivial = ≥2 values or a cut inside a value"
+	c.Res.Rule = "sequences of typed values (ints at type boundaries and random; int32/uint32 wrappers; chars; UTF-8 NUL-free strings to multi-frame length via PutString and PutStringBytes; finite doubles from random bit patterns, subnormals, exponent extremes; raw bytes) encoded by the real message.Message on real streams in both modes; emitted bytes compared with an independent spec encoder; decoded as sent and again after re-cutting the payload bytes into frames at every position (short sequences) or random positions; plus 2-3 messages in a row on one stream (frames cut anywhere, empty partial frames, the end-of-message flag in an EMPTY frame of its own), each decoded, drained with GetRemainingBytes (nothing left, nothing of the next message) and followed by NewMessageFromStream; plus PutBytes/PutString/PutStringBytes/CodeString of 1 MiB ± 40 and 2–3 MiB in both modes, strings read back through GetString and CodeString as sent and after re-cutting the frames (inside the length prefix, in the text, before the terminator), judged by a property oracle on the decoded string and on the value that follows it; distinct by op-sequence hash; non-trivial = ≥2 values or a cut inside a value"
 	var cases []Case
 	n := c.Pick(300, 5000)
 	for i := 0; i < n; i++ {
@@ -733,6 +760,75 @@ func runCodec(c *Ctx) error {
 				cases = append(cases, Case{Label: fmt.Sprintf("everycut enc=%d t=%d cut=%d", enc, t, cut), Ops: cw.ops, Real: cw.real})
 			}
 		}
+	}
+	// message boundaries in the typed reader: two or three messages in a row on one stream, the frames
+	// of each cut anywhere, empty partial frames in between, and — two cases in three — the end-of-message
+	// flag travelling in a frame of its own WITHOUT payload (what a sender produces that flushes right
+	// before FinishMessage). The reader decodes the values of a message, drains it (GetRemainingBytes:
+	// nothing may be left, nothing of the next message may leak in), starts the next message.
+	for i := 0; i < c.Pick(150, 2000); i++ {
+		enc := i%2 == 1
+		cw := newCodecWorld(c, enc)
+		nmsg := 2 + c.Rng.Intn(2)
+		var msgs [][]tval
+		var frames [][]byte
+		var eoms []bool
+		emptyEOM := false
+		for mi := 0; mi < nmsg; mi++ {
+			var vals []tval
+			var enc1 []byte
+			for j := 0; j < 1+c.Rng.Intn(3); j++ {
+				v := randVal(c)
+				if len(v.s) > 60 {
+					v.s = randUTF8(c, 12)
+				}
+				vals = append(vals, v)
+				enc1 = append(enc1, specEnc(v, enc)...)
+			}
+			msgs = append(msgs, vals)
+			pos := 0
+			for k := c.Rng.Intn(3); k > 0 && pos < len(enc1); k-- {
+				n := c.Rng.Intn(len(enc1) - pos + 1)
+				frames, eoms = append(frames, enc1[pos:pos+n]), append(eoms, false)
+				pos += n
+				if c.Rng.Intn(4) == 0 {
+					frames, eoms = append(frames, nil), append(eoms, false) // an empty partial frame
+				}
+			}
+			if c.Rng.Intn(3) != 0 || (mi == 0 && i%4 < 2) {
+				frames, eoms = append(frames, enc1[pos:], nil), append(eoms, false, true) // the end-of-message mark on its own
+				emptyEOM = true
+			} else {
+				frames, eoms = append(frames, enc1[pos:]), append(eoms, true)
+			}
+		}
+		cw.feedFrames(frames, eoms)
+	readAll:
+		for mi, vals := range msgs {
+			if mi > 0 {
+				cw.newmsg()
+			}
+			for _, v := range vals {
+				g, err := cw.get(getVia(c, v.kind), len(v.s))
+				if err != nil {
+					c.Violate(Violation{Property: "C01", Key: "C01:typed-boundary:decode-error:" + b01(enc), What: fmt.Sprintf("a value of message %d (of %d in a row) could not be decoded", mi+1, nmsg), Ops: cw.ops, Expected: "value", Observed: "error class " + errKind(err)})
+					break readAll
+				}
+				if bad := sameVal(v, g); bad != "" {
+					c.Violate(Violation{Property: "C01", Key: "C01:typed-boundary:value:" + b01(enc), What: fmt.Sprintf("message %d of %d in a row: %s", mi+1, nmsg, bad), Ops: cw.ops, Expected: "same value", Observed: bad})
+					break readAll
+				}
+			}
+			g, err := cw.get("rest", 0)
+			if err != nil || len(g.s) != 0 {
+				c.Violate(Violation{Property: "C01", Key: "C01:typed-boundary:message-not-ended:" + b01(enc), What: fmt.Sprintf("after all values of message %d (of %d in a row) were decoded the typed reader does not see the end of that message: bytes of the next message leak in, or the stream is read past the end", mi+1, nmsg),
+					Ops: cw.ops, Expected: "GetRemainingBytes returns nothing", Observed: fmt.Sprintf("%d bytes, error class %q", len(g.s), errKind(err))})
+				break
+			}
+		}
+		c.Distinct(strings.Join(cw.ops, "\n"), true)
+		c.Count("kind:boundaries:empty-eom=" + b01(emptyEOM))
+		cases = append(cases, Case{Label: fmt.Sprintf("boundaries#%d enc=%v", i, enc), Ops: cw.ops, Real: cw.real})
 	}
 	// large values through the typed layer (C01 typed part)
 	sizes := []int{MiB - 40, MiB - 33, MiB - 32, MiB - 31, MiB - 17, MiB - 16, MiB - 9, MiB - 8, MiB - 1, MiB, MiB + 1, 2*MiB + 5}
